@@ -699,11 +699,13 @@ PyObject* py_cwatershed(PyObject* self, PyObject* args) {
                                                     PyArray_DIMS(array),
                                                     NPY_INT64);
     if (!res_a) return NULL;
+    PyArray_FILLWBYTE(res_a, 0);
     PyArrayObject* lines =  0;
     numpy::aligned_array<bool>* lines_a = 0;
     if (return_lines) {
         lines = (PyArrayObject*)PyArray_SimpleNew(PyArray_NDIM(array), PyArray_DIMS(array), NPY_BOOL);
         if (!lines) return NULL;
+        PyArray_FILLWBYTE(lines, 0);
         lines_a = new numpy::aligned_array<bool>(lines);
     }
 #define HANDLE(type) \
